@@ -60,6 +60,26 @@ func c11EvalCtx() *eval.Context {
 	return c11Ctx
 }
 
+// c11Prime runs the error paths once on the frame (misuse that must yield Err): whatever such a
+// call leaves behind in process-wide state (pools, caches) is then present when the operations
+// under test start. Results are ignored here; C10 checks them.
+func c11Prime(q qframe.QFrame) {
+	defer func() { _ = recover() }()
+	_ = q.Filter(qframe.Filter{Column: "i", Comparator: "nosuch", Arg: 1})
+	_ = q.Filter(qframe.Filter{Column: "i", Comparator: ">", Arg: "x"})
+	_ = q.Filter(qframe.Filter{Column: "nocol", Comparator: ">", Arg: 1})
+	_ = q.Filter(qframe.Filter{Column: "s", Comparator: "like", Arg: "(%"})
+	_ = q.Filter(qframe.Filter{Column: "e", Comparator: "like", Arg: "(%"})
+	_ = q.Filter(qframe.Filter{Column: "e", Comparator: "=", Arg: "undeclared"})
+	_ = q.Filter(qframe.Or(qframe.Filter{Column: "i", Comparator: ">", Arg: 0}, qframe.Filter{Column: "f", Comparator: "nosuch", Arg: 1.0}))
+	_ = q.Apply(qframe.Instruction{Fn: func(s *string) int { return 0 }, DstCol: "n", SrcCol1: "i"})
+	_ = q.Eval("n", qframe.Expr("nosuch", types.ColumnName("i")))
+	_ = q.Sort(qframe.Order{Column: "nocol"})
+	_ = q.Distinct(groupby.Columns("nocol"))
+	_ = q.GroupBy(groupby.Columns("nocol")).Aggregate(qframe.Aggregation{Fn: "sum", Column: "i"})
+	_ = q.Slice(3, 99)
+}
+
 func c11Ops() []concOp {
 	sum := func(v []int) int {
 		s := 0
@@ -261,15 +281,19 @@ func runSchedCase(c concCase) *core.Failure {
 	base := c11Base()
 	frames := make([]qframe.QFrame, len(c.Ops))
 	want := make([]string, len(c.Ops))
-	shared := firstFrame(base, c.Rel)
+	twin := c11Base()
+	c11Prime(c11Base())
+	shared, sharedTwin := firstFrame(base, c.Rel), firstFrame(twin, c.Rel)
 	for i, oi := range c.Ops {
 		frames[i] = shared
+		ft := sharedTwin
 		if i > 0 && c.Rel != "derived" {
 			frames[i] = related(base, c.Rel)
+			ft = related(twin, c.Rel)
 		}
-		want[i] = ops[oi].run(frames[i], noYield)
+		want[i] = ops[oi].run(ft, noYield) // expected result: the operation alone, on an equal frame
 	}
-	baseDigest := digestFrame(base)
+	baseDigest := digestFrame(twin)
 	got := make([]string, len(c.Ops))
 	bodies := make([]func(yield func()), len(c.Ops))
 	for i, oi := range c.Ops {
@@ -330,6 +354,17 @@ func c11Run(ctx *core.Ctx) {
 		baseDigest := digestFrame(base)
 		var got []string
 		mk := func() []func(yield func()) {
+			// every execution starts cold: fresh frames (equal to the ones the expected results were
+			// computed on), so that state built lazily on first use is built under the schedule
+			base = c11Base()
+			c11Prime(c11Base())
+			shared := firstFrame(base, rel)
+			for i := range opIdx {
+				frames[i] = shared
+				if i > 0 && rel != "derived" {
+					frames[i] = related(base, rel)
+				}
+			}
 			got = make([]string, len(opIdx))
 			bodies := make([]func(yield func()), len(opIdx))
 			for i, oi := range opIdx {
@@ -452,6 +487,16 @@ func RacePassMain(tier string, only string) int {
 				wa, wb := ops[a].run(fa, noYield), ops[b].run(fb, noYield)
 				fmt.Fprintf(os.Stderr, "\nPAIR-BEGIN %s\n", key)
 				for r := 0; r < reps; r++ {
+					if r%2 == 0 {
+						// cold start: fresh frames nothing has run on yet (state built lazily on first
+						// use is then built by the two racing operations); odd repetitions re-use them warm
+						fresh := c11Base()
+						c11Prime(c11Base())
+						fa, fb = firstFrame(fresh, rel), related(fresh, rel)
+						if rel == "derived" {
+							fb = fa
+						}
+					}
 					var ga, gb string
 					start := make(chan struct{})
 					var wg sync.WaitGroup
